@@ -41,6 +41,13 @@ def run(ctx):
     ctx.do(rule_inner_written_by_constructor)
     ctx.do(rule_dictionaries_keep_their_order)
     ctx.do(rule_parse_hands_on_everything)
+    ctx.do(rule_options_travel_together)
+    # what was written is parsed back WITHOUT error: the version detector reads members that the writer legitimately omits
+    # (an empty bundle has no `objects`, observables have no `spec_version`); C17's kind analysis, kept to the detector
+    from . import C17 as _C17
+    n0_ = len(ctx.run.instances)
+    ctx.do_as(_C17.rule_raw_deref, {"C17.raw-deref": "C01.version-detectable"})
+    ctx.run.instances[n0_:] = [i_ for i_ in ctx.run.instances[n0_:] if i_.rule != "C01.version-detectable" or "detect_spec_version" in i_.construct]
     # what is serialised parses back to an equal object only if construction already truncated every timestamp to what
     # the serialiser will write: the truncation pipeline (C15) is a necessary condition of the round trip
     from . import C15
@@ -351,6 +358,30 @@ def rule_encoders(ctx):
     run = ctx.run
     prog = ctx.prog
     R = "C01.encoder-siblings"
+    # include_optional_defaults reaches NESTED objects too (bundle members, observed-data members, embedded objects): they are
+    # written by the encoder's default(), so every json.dump that can run with the option set names an encoder class whose
+    # default() does not strip the defaulted optional properties
+    fp0 = prog.func("stix2.serialization::fp_serialize")
+    opt = "include_optional_defaults"
+    for c in [x for x in body_walk(fp0.node) if isinstance(x, ast.Call) and dotted(x.func) == "json.dump"]:
+        under_not_opt = any((not pol) and opt in names_in(t) for t, pol, _ in guard_chain(c)) or any(
+            pol and isinstance(t, ast.UnaryOp) and isinstance(t.op, ast.Not) and opt in names_in(t) for t, pol, _ in guard_chain(c))
+        if under_not_opt:
+            continue
+        cls_kw = [k.value for k in c.keywords if k.arg == "cls"]
+        ename = norm(cls_kw[0]).split(".")[-1] if cls_kw else None
+        ecls = None
+        try:
+            ecls = prog.cls("stix2.serialization::%s" % ename) if ename else None
+        except Exception:
+            ecls = None
+        d_ = ecls.methods.get("default") if ecls is not None else None
+        strips = d_ is not None and "_defaulted_optional_properties" in norm(d_.node)
+        run.check(d_ is not None and not strips, R, key(fp0.module.relpath, fp0.qualname, "option-reaches-nested-objects"),
+                  "with include_optional_defaults=True the text is written by an encoder whose default() removes the defaulted "
+                  "optional properties: the option is honoured for the top-level object only -- inside a bundle or an observed-data "
+                  "container an explicitly given `revoked: false` / `defanged: false` is missing from the output", file=fp0.module.relpath,
+                  line=c.lineno, function=fp0.qualname, expected="an encoder that returns dict(obj) for every nested object", found=short(c, 100))
     e1 = prog.cls("stix2.serialization::STIXJSONEncoder").methods.get("default")
     e2 = prog.cls("stix2.serialization::STIXJSONIncludeOptionalDefaultsEncoder").methods.get("default")
     if e1 is None or e2 is None:
@@ -764,6 +795,23 @@ def rule_order_and_precision(ctx):
                   "does not reproduce the text; toplevel-extension properties are not listed in definition order)",
                   file=init.module.relpath, line=unordered[0].lineno if unordered else loops[0].lineno, function=init.qualname,
                   expected="lists / dict views in definition order", found=[short(u_) for u_ in unordered])
+    # the extras of an UNREGISTERED toplevel extension have no definition order: they keep the order they were given in (the
+    # order of the keyword arguments).  That is the only order a re-parse reproduces -- the text lists them in the order of the
+    # first construction, and on parse every extra arrives as a keyword argument in text order; re-ordering them (sorted /
+    # reversed / through a set) makes the second text differ from the first as soon as custom_properties contributed names
+    reordered = []
+    for comp in body_walk(init.node):
+        if isinstance(comp, (ast.GeneratorExp, ast.ListComp)) and any(isinstance(g_.iter, ast.Name) and g_.iter.id == init.kwarg for g_ in comp.generators):
+            anc_ = getattr(comp, "parent", None)
+            while anc_ is not None and not isinstance(anc_, ast.stmt):
+                if isinstance(anc_, ast.Call) and call_simple_name(anc_) in ("sorted", "reversed", "set", "frozenset"):
+                    reordered.append(anc_)
+                anc_ = getattr(anc_, "parent", None)
+    run.check(not reordered, "C01.spec-order", key(init.module.relpath, init.qualname, "extras-keep-the-given-order"),
+              "names taken from the keyword arguments in their own order are re-ordered before they enter the property order: the "
+              "text written after a parse lists the extras of an unregistered toplevel extension differently from the text parsed "
+              "(equal objects, different bytes)", file=init.module.relpath, line=reordered[0].lineno if reordered else init.node.lineno,
+              function=init.qualname, expected="the keyword arguments' own order", found=[short(r_) for r_ in reordered])
     run.check(okc, "C01.spec-order", key(init.module.relpath, init.qualname, "construction-order"),
               "the constructor does not fill the object in the order <specification table>, <top-level extension properties>, "
               "<custom properties, sorted>: output no longer lists the properties in specification order (a ChainMap / set / "
@@ -772,3 +820,31 @@ def rule_order_and_precision(ctx):
               found=short(it) if it is not None else None)
     run.floor("C01.spec-order", 120)
     run.floor("C01.timestamp-meta", 150)
+
+
+def rule_options_travel_together(ctx):
+    """Objects WITH custom content round-trip when the caller allows it: the permission has to reach every nested constructor,
+    or content that was written cannot be parsed back (ExtraPropertiesError from the embedded value).  C04 only demands that
+    the permission never GROWS on the way (an omitted switch is stricter, hence fine there); here omission is the defect.
+    Frozen observation, confirmed at every site: the two constructor options travel together -- a call that hands on
+    `interoperability` by keyword hands on `allow_custom` as well."""
+    run = ctx.run
+    prog = ctx.prog
+    R = "C01.custom-content-round-trip"
+    n = 0
+    for fi in sorted(prog.functions.values(), key=lambda f: f.id):
+        if fi.module.relpath.startswith("stix2/test") or not fi.module.name.startswith("stix2"):
+            continue
+        k = 0
+        for c in body_walk(fi.node):
+            if not (isinstance(c, ast.Call) and any(kw.arg == "interoperability" for kw in c.keywords)):
+                continue
+            k += 1
+            n += 1
+            run.check(any(kw.arg == "allow_custom" for kw in c.keywords), R, key(fi.module.relpath, fi.qualname, "options-together#%d" % k),
+                      "a nested value is built with the caller's `interoperability` but without the caller's `allow_custom`: with "
+                      "customisation allowed the object is constructed and written, but parsing the text back refuses the custom "
+                      "content of the nested value (the default is strict)", file=fi.module.relpath, line=c.lineno, function=fi.qualname,
+                      expected="allow_custom=<the caller's switch> next to interoperability=", found=short(c, 120))
+    if n < 8:
+        raise AnalysisError("fewer than 8 calls handing on `interoperability` by keyword found (%d): the observation lost its sites" % n)
